@@ -167,13 +167,13 @@ class HistGen:
                  faults=False, rejected=False, boundary_args=False, restarts=False,
                  queries=("st", "read"), flush_prob=(1, 4), payload_sizes=(0, 1, 7, 300),
                  batch=True, purge_beyond=True, first_index_nonzero=True, ack_before_restart=True,
-                 big_payload=False):
+                 big_payload=False, weights=None):
         self.r = rng
         self.o = dict(max_ops=max_ops, chunk=chunk, small_cache=small_cache, worker_steps=worker_steps,
                       faults=faults, rejected=rejected, boundary_args=boundary_args, restarts=restarts,
                       queries=queries, flush_prob=flush_prob, payload_sizes=list(payload_sizes),
                       batch=batch, purge_beyond=purge_beyond, first_index_nonzero=first_index_nonzero,
-                      ack_before_restart=ack_before_restart, big_payload=big_payload)
+                      ack_before_restart=ack_before_restart, big_payload=big_payload, weights=weights)
         self.m = MiniLog()
         self.lines = []
         self.cb = 0
@@ -411,38 +411,41 @@ class HistGen:
         r, o = self.r, self.o
         L = [self.cfg_line(), "open"]
         n_ops = 3 + r.below(o["max_ops"])
+        w = dict(rejected=18 if o["rejected"] else 0, boundary=12 if o["boundary_args"] else 0,
+                 append=32, vote=10, commit=10, purge=10, truncate=8, ud=5,
+                 restart=6 if o["restarts"] else 0)
+        w.update(o.get("weights") or {})
+        kinds = [k for k, v in w.items() for _ in range(v)]
         for _ in range(n_ops):
-            k = r.below(100)
+            kind = r.choice(kinds)
             line = None
-            if o["rejected"] and k < 18:
+            if kind == "rejected":
                 line = self.op_rejected()
-            elif o["boundary_args"] and k < 30:
-                kind, line = self.op_boundary()
+            elif kind == "boundary":
+                bk, line = self.op_boundary()
                 L.append(line)
-                if kind != "read":
+                if bk != "read":
                     # a boundary write may be accepted: the generator's own
                     # bookkeeping is no longer reliable, stop steering
                     L += ["st", f"read 0 {U64MAX}"]
                     break
                 continue
-            elif k < 45:
+            elif kind == "append":
                 line = self.op_append()
-            elif k < 55:
+            elif kind == "vote":
                 line = self.op_vote()
-            elif k < 65:
+            elif kind == "commit":
                 line = self.op_commit()
-            elif k < 75:
+            elif kind == "purge":
                 line = self.op_purge()
-            elif k < 83:
+            elif kind == "truncate":
                 line = self.op_truncate()
-            elif k < 88:
+            elif kind == "ud":
                 line = self.op_ud()
-            elif k < 94 and o["restarts"]:
+            elif kind == "restart":
                 L += self.restart()
                 L += self.queries()
                 continue
-            else:
-                line = self.op_append()
             if line is None:
                 continue
             L.append(line)
